@@ -29,6 +29,13 @@ def stepD (s : St) (line : String) : St × String :=
     match parseDefault? w, parseOp? ws.dropLast with
     | some d, some op =>
       if !op.takesDefault then (s, "bad-op") else
+      if s.dis.contains (ws.headD "") then
+        -- a disabled read hands the caller's default back for every key
+        let o : Out := match op with
+          | .getMany ks => .vals (ks.map fun _ => some d)
+          | _ => .val (some d)
+        (s, s!"tx={showOut o} direct={showOut o} " ++ views s)
+      else
       let o := (s.ctx.step (.cmd op)).2
       let o' := (s.direct.step op).2
       let s' := (step s (" ".intercalate ws.dropLast)).1
